@@ -76,7 +76,9 @@ def run_history(plan, n_trackers=1):
     def V(kind, where, detail):
         violations.append({"kind": kind, "sig": f"{kind}:{cfg['candidates_method']}:{where}", "detail": detail})
 
-    for fi, dets in enumerate(plan["frames"]):
+    numbers = plan.get("frame_idx") or []
+    for pos, dets in enumerate(plan["frames"]):
+        fi = numbers[pos] if pos < len(numbers) else (numbers[-1] + 1 + pos - len(numbers) if numbers else pos)
         for ti, tr in enumerate(trackers):
             insts = []
             for d in dets:
